@@ -512,6 +512,35 @@ func TestC01(t *testing.T) {
 		}
 		ev.Exhaustive("all_paths_of_one_or_two_steps_by_documents_by_mode", int64(len(cs)))
 	})
+	if thorough() {
+		t.Run("three_step_table", func(t *testing.T) {
+			b := ev.enum(t)
+			steps := []string{".a", ".*", "[*]", "[0]", "[last]", "[0 to 1]", ".**", ".**{1}", " ? (@ > 1)", " ? (@.a == 1)", " ? (exists(@.a))", ".size()", ".type()", ".abs()", ".double()", ".keyvalue().value", ".string()", ".integer()"}
+			docs := []string{`[1,2]`, `[1,"a",null]`, `{"a":[1,2]}`, `[{"a":1},{"a":2}]`, `[{"a":[2,3]},{"b":1}]`, `{"a":{"a":1.5}}`, `[[1,2],[3]]`, `{"a":"12"}`, `[[1,"x"],2]`, `{"a":null,"b":2}`}
+			i := 0
+			for _, s1 := range steps {
+				for _, s2 := range steps {
+					for _, s3 := range steps {
+						for _, d := range docs {
+							for _, mode := range []string{"", "strict "} {
+								i++
+								if !mine(i) {
+									continue
+								}
+								c := ExecCase{Path: mode + "$" + s1 + s2 + s3, Doc: d, Opts: Opts{TZ: true}}
+								v, f := checkModelFacts(c)
+								record("table3", c, f, nil)
+								if !b.Check("c01.model", c, v) {
+									return
+								}
+							}
+						}
+					}
+				}
+			}
+			ev.Exhaustive("all_paths_of_three_steps_over_18_step_kinds_by_documents_by_mode", int64(i))
+		})
+	}
 	t.Run("postgres_regression_inputs", func(t *testing.T) {
 		b := ev.enum(t)
 		cs := pgCorpusCases()
